@@ -341,6 +341,54 @@ def one_input(ctx, inp, cid, tmp, heavy=True):
                                        silence_level=3)
         ctx.count("roundtrips")
         build(f"SpatialNetwork.save-Load:{gfmt}", sp_rt, text=True)
+
+        # ClimateNetwork: network + grid + similarity matrix in three files;
+        # the loaded object is the saved network (adjacency as thresholded,
+        # node weights = cos lat, link attribute)
+        if A.any():
+            from pyunicorn.climate import ClimateNetwork
+            S = np.where(A != 0, 0.9, 0.1) + np.eye(n) * 0.9
+            S = np.maximum(S, S.T)
+
+            def cn_rt():
+                net = ClimateNetwork(gg, S.copy(), threshold=0.5,
+                                     silence_level=3)
+                with_attr(net)
+                fn = (os.path.join(tmp, "cn." + gfmt),
+                      os.path.join(tmp, "cn.grid"),
+                      os.path.join(tmp, "cn.sim"))
+                net.save(fn, fileformat=gfmt)
+                return ClimateNetwork.Load(fn, fileformat=gfmt,
+                                           silence_level=3)
+            okc, cn = ctx.call(cn_rt)
+            ctx.count("roundtrips")
+            if not okc:
+                ctx.violation(f"ClimateNetwork.save-Load:raises:"
+                              f"{type(cn).__name__}:{icls}",
+                              {"exc": repr(cn), "fmt": gfmt,
+                               "edges": np.argwhere(A).tolist()}, cid)
+            else:
+                cl = np.cos(np.float32(lat) * np.pi / 180)
+                check_net(ctx, cn, {**inp, "w": cl},
+                          f"ClimateNetwork.save-Load:{gfmt}", cid, text=True,
+                          want_w=False)
+                nw = cn.node_weights
+                if nw is None or not np.allclose(nw, cl, rtol=1e-5):
+                    ctx.violation(f"ClimateNetwork.save-Load:{gfmt}:"
+                                  f"node_weights!=saved:{icls}",
+                                  {"got": nw, "want": cl}, cid)
+                oks, sim = ctx.call(cn.similarity_measure)
+                if not oks or not np.allclose(np.asarray(sim, float),
+                                              np.float32(S), atol=1e-6):
+                    ctx.violation(f"ClimateNetwork.save-Load:{gfmt}:"
+                                  f"similarity!=saved:{icls}", {}, cid)
+                # the loaded network can be re-thresholded like the saved one
+                okt, e = ctx.call(cn.set_threshold, 0.95)
+                if not okt or int(cn.n_links) != 0:
+                    ctx.violation(f"ClimateNetwork.save-Load:{gfmt}:"
+                                  f"set_threshold-after-Load:{icls}",
+                                  {"exc": repr(e), "n_links":
+                                   getattr(cn, "n_links", None)}, cid)
     # internal consumers of the same construction paths
     #  (n >= 3: local_vulnerability removes one node, and a network needs
     #   two nodes for its link density to be defined)
